@@ -92,7 +92,7 @@ def verify_all(items, prop, jobs):
     return [acc[(qn, ci)] for qn, ci, _p in items if (qn, ci) in acc]
 
 
-def _replay_item(item):
+def _replay_item(item, repeated=False):
     qn, inputs, only, prop, awaits = item
     from pyvc import replay
     from pyvc.contracts import REGISTRY
@@ -100,6 +100,9 @@ def _replay_item(item):
     load_property(prop)
     con = REGISTRY.contracts[qn]
     try:
+        if repeated:
+            r_ = replay.run_native_repeated(con, inputs, only=only, awaits=awaits)
+            return r_ if r_ is not None else {"error": "no native history: the constructor's values of the undeclared attributes are not literals"}
         return replay.run_native(con, inputs, only=only, awaits=awaits)
     except Exception as e:
         return {"error": "".join(traceback.format_exception(type(e), e, e.__traceback__))[-2000:]}
@@ -230,6 +233,26 @@ def run_property(prop, tier, seed, args):
                     ref = dict(ref)
                     ref["model"] = str(ref.get("model"))[:1500] + "\n-- found by bounded exploration of a function outside reach; confirmed natively"
                     handle_refutation(prop, r, ref, res, True, known, baseline, violations, known_lines, undecided)
+            # bounded native search (pyvc/bounded.py): the real function on generated inputs of the contract's argument
+            # types, judged by the contract's own clauses -- can only add a *confirmed* violation, proves nothing
+            try:
+                from pyvc import bounded
+
+                con_b = REGISTRY.contracts[r["qualname"]]
+                case_b = next((cs for cs in engine.cases_of(con_b) if cs is not None and cs[0] == r["case"]), None)
+                found = bounded.search(con_b, case_b, None, seed=seed)
+            except Exception as e_b:  # the search is best effort; a harness error is never a verdict
+                found = f"error: {e_b!r}"
+            if isinstance(found, tuple):
+                inputs_b, res_b, names_b, runs_b = found
+                for nm in names_b[:3]:
+                    ref_b = {"obligation": nm, "case": r["case"], "inputs": inputs_b, "awaits": None,
+                             "goal": "(no solver goal: function outside the verifier's reach on this tree)",
+                             "model": f"failing input found by bounded native search after {runs_b} runs"}
+                    handle_refutation(prop, r, ref_b, res_b, True, known, baseline, violations, known_lines, undecided)
+            bounded_only[-1]["bounded_native_search"] = (
+                "failing input found" if isinstance(found, tuple) else
+                ("no failing input within the bound" if found is None else str(found)))
             continue
         if r["pre_satisfiable"] is False:
             errors.append((r["qualname"], r["case"], "vacuous: precondition unsatisfiable"))
@@ -283,6 +306,20 @@ def run_property(prop, tier, seed, args):
             if key in seen:
                 continue
             seen.add(key)
+            if ref.get("aux_reads"):
+                # the counter-model sits on a path that read attributes the contract's state does not declare: it is a
+                # violation only if a short native history (the same call twice, from the constructor's values)
+                # reproduces it on the real code; otherwise the obligation stays undecided (recorded as such already)
+                hit = None
+                for cand in [x for x in r["refutations"] if x["obligation"] == key and x.get("aux_reads")][:6]:
+                    res_h = _replay_item((r["qualname"], cand["inputs"], [key], prop, cand.get("awaits")), repeated=True)
+                    if "error" not in res_h and any(n_ == key and ok is False for n_, ok, _d in res_h["judgements"]):
+                        hit = (cand, res_h)
+                        break
+                if hit is not None:
+                    undecided[:] = [u for u in undecided if u != (label, key)]
+                    handle_refutation(prop, r, hit[0], hit[1], True, known, baseline, violations, known_lines, undecided)
+                continue
             res = _replay_item((r["qualname"], ref["inputs"], [key], prop, ref.get("awaits")))
             confirmed = False
             detail = res
